@@ -3,7 +3,7 @@
    found (F-28, F-29, F-34), and the capacity clause for a shard whose policy is
    in sync with its map. *)
 From Fibre Require Import Common.Base Cache.PolicySpec Cache.PolicyLru Cache.AMap Cache.CacheOps Cache.CacheSpec
-     Proofs.AMapProofs Proofs.CacheCoreProofs Proofs.CacheStepProofs.
+     Proofs.AMapProofs Proofs.PolicyCommon Proofs.PolicyLruProofs Proofs.CacheCoreProofs Proofs.CacheStepProofs.
 
 Section C13.
   Set Default Proof Using "All".
@@ -290,6 +290,179 @@ Section C13.
   Qed.
 End C13.
 
+Section C13cap.
+  Set Default Proof Using "All".
+  Variable P : policy.
+  Variable c : cfg.
+  Hypothesis Hn : 0 < c_shards c.
+
+  Notation state := (state P).
+  Notation smap := (smap P).
+  Notation wfp := (wfp P c).
+
+  Lemma lookup_without k vs T : lookup k (without vs T) = if mem k vs then None else lookup k T.
+  Proof.
+    unfold without. induction T as [|[k' c'] t IH]; cbn [filter lookup fst]; [destruct (mem k vs); reflexivity|].
+    destruct (mem k' vs) eqn:Em; cbn [negb].
+    - rewrite IH. destruct (N.eqb_spec k k') as [->|]; [rewrite Em; reflexivity | reflexivity].
+    - cbn [lookup]. rewrite IH. destruct (N.eqb_spec k k') as [->|]; [rewrite Em; reflexivity | reflexivity].
+  Qed.
+
+  Lemma sumN_perm (f : N -> N) a b : Permutation a b -> sumN (map f a) = sumN (map f b).
+  Proof. induction 1; cbn [map sumN]; lia. Qed.
+
+  Lemma afind_all_None (m : amap entry) : (forall k, afind k m = None) -> m = [].
+  Proof.
+    destruct m as [|[k e] t]; [reflexivity|]. intros H. specialize (H k). cbn [afind] in H.
+    rewrite N.eqb_refl in H. discriminate.
+  Qed.
+
+  Lemma cost_sum_tracked T (rem : list (N * entry)) :
+    (forall k e, In (k, e) rem -> lookup k T = Some (e_cost e)) ->
+    cost_sum rem = Z.of_N (sumN (map (cost_of T) (map fst rem))).
+  Proof.
+    induction rem as [|[k e] t IH]; intros H; cbn [cost_sum fold_right map fst sumN snd]; [reflexivity|].
+    fold (cost_sum t). rewrite IH by (intros k' e' Hi; apply H; right; exact Hi).
+    assert (Hc : cost_of T k = e_cost e) by (unfold cost_of; rewrite (H k e (or_introl eq_refl)); reflexivity).
+    rewrite Hc. lia.
+  Qed.
+
+  Lemma cost_sum_nonneg (rem : list (N * entry)) : (0 <= cost_sum rem)%Z.
+  Proof. induction rem as [|x r IH]; cbn [cost_sum fold_right]; [lia|]. fold (cost_sum r). lia. Qed.
+
+  (* capacity cleanup on a shard whose policy is in sync with its map *)
+  Theorem c13_capacity_shard s i :
+    wfp s -> i < c_shards c ->
+    st_cc P s = resident_cost P c s -> (resident_cost P c s < Z.of_N U64)%Z ->
+    in_sync P s i -> evict_ok_at P s i ->
+    let s' := cleanup_cap P c i s in
+    st_cc P s' = resident_cost P c s'
+    /\ in_sync P s' i
+    /\ (forall j, j <> i -> smap s' j = smap s j)
+    /\ ((resident_cost P c s' <= Z.of_N (c_cap c))%Z \/ smap s' i = []).
+  Proof.
+    intros Hw Hi Hcc Hlt [HndT Hsync] Hev. cbn zeta.
+    assert (Hres0 : (0 <= resident_cost P c s)%Z).
+    { rewrite (resident_sum P c Hn). generalize (nseq (c_shards c)). intros l.
+      induction l as [|j t IH]; cbn [sum_sh fold_right]; [lia|].
+      fold (sum_sh (fun j => map_cost (smap s j)) t).
+      assert (0 <= map_cost (smap s j))%Z by (generalize (smap s j); intros m; induction m as [|x r IHr]; cbn [map_cost fold_right]; [lia | fold (map_cost r); lia]).
+      lia. }
+    assert (Hobs : Z.of_N (cc_obs P s) = st_cc P s).
+    { unfold cc_obs. rewrite Z2N.id by (apply Z.mod_pos_bound; reflexivity). apply Z.mod_small. lia. }
+    unfold cleanup_cap. destruct (N.leb_spec (cc_obs P s) (c_cap c)) as [Hle|Hgt].
+    { split; [exact Hcc|]. split; [split; assumption|]. split; [reflexivity|]. left. lia. }
+    set (want := cc_obs P s - c_cap c).
+    specialize (Hev want). cbn zeta in Hev.
+    destruct (pstep P (s_pol P (st_sh P s i)) (Evict want)) as [p' o] eqn:Ep.
+    destruct Hev as [vs [rel [-> [[Hvnd [Hvin [Hrel [Hperm Hsuff]]]] Hgreedy]]]].
+    set (T := ptracked P (s_pol P (st_sh P s i))) in *.
+    set (s1 := set_sh P s i (sh_pol P (st_sh P s i) p')).
+    assert (Hm1 : forall j, smap s1 j = smap s j).
+    { intros j. unfold s1. rewrite smap_set_sh. destruct (N.eqb_spec j i) as [->|]; reflexivity. }
+    assert (Hp1 : s_pol P (st_sh P s1 i) = p') by (unfold s1; cbn [st_sh set_sh]; rewrite N.eqb_refl; reflexivity).
+    assert (Hc1 : st_cc P s1 = st_cc P s) by reflexivity.
+    clearbody s1.
+    (* no victim: nothing tracked or nothing wanted *)
+    destruct vs as [|v0 vt].
+    { assert (Hrel0 : rel = 0) by (rewrite Hrel; reflexivity).
+      split; [|split; [|split]].
+      - rewrite Hc1, (resident_sum P c Hn), (sum_sh_ext P c Hn _ (fun j => map_cost (smap s j))) by (intros j _; rewrite Hm1; reflexivity).
+        rewrite <- (resident_sum P c Hn). exact Hcc.
+      - unfold in_sync. cbn zeta. rewrite Hp1, Hm1. split.
+        + eapply perm_NoDup_keys; [exact Hperm|]. rewrite without_nil. exact HndT.
+        + intros k. rewrite (lookup_perm (ptracked P p') (without [] T) k).
+          * rewrite without_nil. apply Hsync.
+          * eapply perm_NoDup_keys; [exact Hperm|]. rewrite without_nil. exact HndT.
+          * exact Hperm.
+      - intros j _. apply Hm1.
+      - right. rewrite Hm1. apply afind_all_None. intros k.
+        assert (HT : T = []).
+        { destruct (N.ltb_spec (total T) want) as [Hl|Hg].
+          - specialize (Hgreedy Hl). rewrite Hgreedy in Hperm. rewrite without_nil in Hperm.
+            apply Permutation_nil in Hperm. exact Hperm.
+          - specialize (Hsuff Hg). unfold want in *. lia. }
+        specialize (Hsync k). rewrite HT in Hsync. cbn [lookup] in Hsync.
+        destruct (afind k (smap s i)); [discriminate | reflexivity]. }
+    destruct (fold_left (evict_victim P c i) (v0 :: vt) (s1, 0)) as [s2 freed] eqn:Ef.
+    destruct (evict_victims_eff P c i (v0 :: vt) s1 0 s2 freed Ef) as [rem [Hrnd [Hrin [Hgone [Hfr Heff]]]]].
+    rewrite Hm1 in Hrin, Hgone, Heff.
+    (* every victim is resident, so exactly the victims were removed *)
+    assert (Hres : forall k, In k (v0 :: vt) -> exists e, afind k (smap s i) = Some e /\ lookup k T = Some (e_cost e)).
+    { intros k Hk. apply Hvin in Hk. apply In_keys_lookup in Hk. destruct Hk as [ck Hck].
+      pose proof (Hsync k) as Hs. rewrite Hck in Hs. destruct (afind k (smap s i)) as [e|]; [|discriminate].
+      exists e. cbn [option_map] in Hs. inversion Hs; subst. auto. }
+    assert (Hsame : Permutation (map fst rem) (v0 :: vt)).
+    { apply NoDup_Permutation; [exact Hrnd | exact Hvnd|]. intros k. split.
+      - intros Hk. apply in_map_iff in Hk. destruct Hk as [[k' e'] [<- Hk]]. apply (Hrin k' e' Hk).
+      - intros Hk. destruct (Hres k Hk) as [e [He _]]. specialize (Hgone k Hk). rewrite afind_adel_all, He in Hgone.
+        destruct (mem k (map fst rem)) eqn:Em; [apply mem_In; exact Em | discriminate]. }
+    assert (Hfreed : freed = rel).
+    { rewrite Hfr, Hrel, N.add_0_l. rewrite (cost_sum_tracked T rem).
+      - rewrite N2Z.id. apply sumN_perm. exact Hsame.
+      - intros k e Hk. destruct (Hrin k e Hk) as [He Hv]. destruct (Hres k Hv) as [e' [He' Hl]]. congruence. }
+    set (s' := add_cc P s2 (- Z.of_N (if fix_f18 (c_fix c) then freed else rel))).
+    assert (Hdcc : (- Z.of_N (if fix_f18 (c_fix c) then freed else rel) = - Z.of_N rel)%Z)
+      by (destruct (fix_f18 (c_fix c)); rewrite ?Hfreed; reflexivity).
+    destruct Heff as [M2 [C2 _]].
+    assert (Hmap' : forall j, smap s' j = if N.eqb j i then adel_all (map fst rem) (smap s i) else smap s j).
+    { intros j. unfold s'. rewrite smap_add_cc, M2, Hm1. reflexivity. }
+    assert (Hcs : cost_sum rem = Z.of_N rel).
+    { rewrite (cost_sum_tracked T rem).
+      - f_equal. rewrite Hrel. apply sumN_perm. exact Hsame.
+      - intros k e Hk. destruct (Hrin k e Hk) as [He Hv]. destruct (Hres k Hv) as [e' [He' Hl]]. congruence. }
+    assert (Hres' : resident_cost P c s' = (resident_cost P c s - Z.of_N rel)%Z).
+    { rewrite !(resident_sum P c Hn).
+      rewrite (sum_sh_upd P c Hn (fun j => map_cost (smap s j)) (fun j => map_cost (smap s' j)) _ i).
+      - rewrite Hmap', N.eqb_refl.
+        assert (Hmc : map_cost (adel_all (map fst rem) (smap s i)) = (map_cost (smap s i) - cost_sum rem)%Z).
+        { clear -Hrnd Hrin Hw. pose proof (proj1 Hw i) as Hnd. revert Hnd Hrin. generalize (smap s i). intros m.
+          revert m. induction rem as [|[k e] t IH]; intros m Hnd Hin; cbn [map fst adel_all fold_left cost_sum fold_right snd]; [lia|].
+          change (fold_left (fun m k => adel k m) (map fst t) (adel k m)) with (adel_all (map fst t) (adel k m)).
+          fold (cost_sum t). inversion Hrnd as [|? ? Hni Hnd']; subst. rewrite IH.
+          - rewrite (map_cost_adel k e) by (try exact Hnd; apply Hin; left; reflexivity). lia.
+          - exact Hnd'.
+          - apply adel_NoDup. exact Hnd.
+          - intros k' e' Hk'. destruct (Hin k' e' (or_intror Hk')) as [Ha Hb]. split; [|exact Hb].
+            rewrite afind_adel_other; [exact Ha|]. intros ->. apply Hni. apply in_map_iff. exists (k, e'). auto. }
+        rewrite Hmc, Hcs. lia.
+      - apply nseq_NoDup.
+      - apply nseq_In. exact Hi.
+      - intros j Hne. rewrite Hmap'. destruct (N.eqb_spec j i); [contradiction | reflexivity]. }
+    assert (Hcc' : st_cc P s' = (st_cc P s - Z.of_N rel)%Z).
+    { unfold s'. rewrite st_cc_add_cc, C2, Hdcc, Hc1. lia. }
+    split; [rewrite Hcc', Hres', Hcc; reflexivity|]. split; [|split].
+    - (* still in sync *)
+      assert (Hpol' : s_pol P (st_sh P s' i) = p').
+      { unfold s'. cbn [add_cc set_cc st_sh].
+        clear -Ef Hp1. revert Ef. generalize (v0 :: vt). intros l. revert s1 Hp1. generalize 0.
+        induction l as [|k t IH]; intros f0 s1 Hp1 Ef; cbn [fold_left] in Ef; [inversion Ef as [[H1 H2]]; rewrite <- H1; exact Hp1|].
+        unfold evict_victim at 2 in Ef. destruct (afind k (s_map P (st_sh P s1 i))) as [e|].
+        - eapply IH; [|exact Ef]. rewrite st_sh_notify. cbn [st_sh set_sh]. rewrite N.eqb_refl. cbn [s_pol sh_map]. exact Hp1.
+        - eapply IH; eassumption. }
+      unfold in_sync. cbn zeta. rewrite Hpol', Hmap', N.eqb_refl.
+      assert (HndT' : NoDup (keys (ptracked P p'))) by (eapply perm_NoDup_keys; [exact Hperm | apply without_NoDup; exact HndT]).
+      split; [exact HndT'|]. intros k.
+      rewrite (lookup_perm (ptracked P p') (without (v0 :: vt) T) k HndT' Hperm), lookup_without, afind_adel_all.
+      assert (Hmem : mem k (map fst rem) = mem k (v0 :: vt)).
+      { destruct (mem k (v0 :: vt)) eqn:E1.
+        - apply mem_In. apply mem_In in E1. eapply Permutation_in; [apply Permutation_sym; exact Hsame | exact E1].
+        - apply mem_false_In. apply mem_false_In in E1. intros Hx. apply E1. eapply Permutation_in; eassumption. }
+      rewrite Hmem. destruct (mem k (v0 :: vt)); [reflexivity | apply Hsync].
+    - intros j Hne. rewrite Hmap'. destruct (N.eqb_spec j i); [contradiction | reflexivity].
+    - destruct (N.ltb_spec (total T) want) as [Hl|Hg].
+      + right. rewrite Hmap', N.eqb_refl. apply afind_all_None. intros k. rewrite afind_adel_all.
+        destruct (mem k (map fst rem)) eqn:Em; [reflexivity|].
+        specialize (Hgreedy Hl). rewrite Hgreedy in Hperm. apply Permutation_nil in Hperm.
+        pose proof (lookup_without k (v0 :: vt) T) as Hlw. rewrite Hperm in Hlw. cbn [lookup] in Hlw.
+        assert (Hmem : mem k (v0 :: vt) = false).
+        { apply mem_false_In. apply mem_false_In in Em. intros Hx. apply Em. eapply Permutation_in; [apply Permutation_sym; exact Hsame | exact Hx]. }
+        rewrite Hmem in Hlw. specialize (Hsync k). rewrite <- Hlw in Hsync.
+        destruct (afind k (smap s i)); [discriminate | reflexivity].
+      + left. specialize (Hsuff Hg). rewrite Hres', <- Hcc, <- Hobs. unfold want in *. lia.
+  Qed.
+End C13cap.
+
 (** * the full statement and its refutations on the code as found *)
 Definition C13_cost_full (P : policy) (c : cfg) : Prop :=
   forall now0 ops, st_cc P (state_after P c now0 ops) = resident_cost P c (state_after P c now0 ops).
@@ -318,3 +491,51 @@ Definition c13_ops_F34 : list op :=
 
 Lemma c13_cost_refuted_F34 : ~ C13_cost_full LruP (c13_cfg 4).
 Proof. intros H. specialize (H 1000 c13_ops_F34). vm_compute in H. discriminate. Qed.
+
+(** * the evict clause for the recency-list policies (Lru, Fifo share LruList::evict) *)
+Lemma ll_evict_ok_at (l : lru_list) n :
+  NoDup (keys l) ->
+  let '(l', vs, f) := ll_evict n l in
+  evict_ok l l' n vs f /\ (total l < n -> l' = []).
+Proof.
+  intros Hnd. destruct (ll_evict n l) as [[l' vs] f] eqn:E. split; [apply ll_evict_ok; assumption|].
+  intros Hlt. destruct (ll_evict_order _ _ _ _ _ E) as [V [Hl [_ [Hf [[Hs|Hs] _]]]]]; [|exact Hs].
+  exfalso. subst l. rewrite total_app, total_rev in Hlt. lia.
+Qed.
+
+Lemma lru_evict_ok_at (c : cfg) (s : state LruP) i : in_sync LruP s i -> evict_ok_at LruP s i.
+Proof.
+  intros [Hnd _] n. cbn [pstep LruP lru_step ptracked] in *.
+  pose proof (ll_evict_ok_at (s_pol LruP (st_sh LruP s i)) n Hnd) as H.
+  destruct (ll_evict n (s_pol LruP (st_sh LruP s i))) as [[l' vs] f]. exists vs, f. split; [reflexivity | exact H].
+Qed.
+
+Lemma fifo_evict_ok_at (c : cfg) (s : state FifoP) i : in_sync FifoP s i -> evict_ok_at FifoP s i.
+Proof.
+  intros [Hnd _] n. cbn [pstep FifoP fifo_step ptracked] in *.
+  pose proof (ll_evict_ok_at (s_pol FifoP (st_sh FifoP s i)) n Hnd) as H.
+  destruct (ll_evict n (s_pol FifoP (st_sh FifoP s i))) as [[l' vs] f]. exists vs, f. split; [reflexivity | exact H].
+Qed.
+
+(** * the capacity clause at the level of run_maintenance, and its refutations *)
+Definition C13_capacity_full (P : policy) (c : cfg) : Prop :=
+  forall now0 ops,
+    let s' := run_maintenance P c [] (state_after P c now0 ops) in
+    (forall i, s_evq P (st_sh P s' i) = []) -> st_evdrops P s' = 0 ->
+    (resident_cost P c s' <= Z.of_N (c_cap c))%Z.
+
+(* F-28: the stale tracked key is nominated, nothing resident is freed *)
+Lemma c13_capacity_refuted_F28 : ~ C13_capacity_full LruP (c13_cfg 3).
+Proof.
+  intros H. specialize (H 1000 [OInsert 1 100 5; ORemove 1; OMaint []; OInsert 2 101 4]).
+  cbn zeta in H. assert (Hx : (4 <= 3)%Z); [|lia].
+  apply H; [intros i; vm_compute; destruct i; reflexivity | vm_compute; reflexivity].
+Qed.
+
+(* F-29: Fifo believes key 1 still costs 8 *)
+Lemma c13_capacity_refuted_F29 : ~ C13_capacity_full FifoP (c13_cfg 10).
+Proof.
+  intros H. specialize (H 1000 [OInsert 1 100 8; OMaint []; OInsert 1 101 1; OInsert 2 102 8; OInsert 3 103 8]).
+  cbn zeta in H. assert (Hx : (16 <= 10)%Z); [|lia].
+  apply H; [intros i; vm_compute; destruct i; reflexivity | vm_compute; reflexivity].
+Qed.
